@@ -96,7 +96,23 @@ func (w *world) backend() policyapi.Backend {
 
 func (w *world) cache() cache.Cache { return resmgr.VerifCache(w.rm) }
 
+// debugLogging is the current run's Plan.Debug.
+var debugLogging bool
+
 func renderCfg(c *CfgSpec, gen int64) (cfgapi.ResmgrConfig, error) {
+	rc, err := renderCfg0(c, gen)
+	if err == nil && debugLogging {
+		switch cfg := rc.(type) {
+		case *cfgapi.TopologyAwarePolicy:
+			cfg.Spec.Log.Debug = []string{"*"}
+		case *cfgapi.BalloonsPolicy:
+			cfg.Spec.Log.Debug = []string{"*"}
+		}
+	}
+	return rc, err
+}
+
+func renderCfg0(c *CfgSpec, gen int64) (cfgapi.ResmgrConfig, error) {
 	meta := metav1.ObjectMeta{Name: "default", Generation: gen, UID: "cfg-uid"}
 	switch c.Policy {
 	case "topology-aware":
